@@ -839,7 +839,7 @@ Proof.
   exists rep. split; [exact Hrep|]. split.
   - intros l Hl Hs. destruct (Hb l Hl) as [Hin | [t [Ht Hid]]]; [apply H1; assumption | subst l; apply H2; assumption].
   - intros Hlev x Ha Hs. apply (H3 Hlev x); [|exact Hs].
-    apply (affected_mono g := after) (E := E); [exact HE|].
+    apply (affected_mono after E _ _ x HE).
     apply (affected_base_mono after E (base_diff cfg before after files)); [exact Hb | exact Ha].
 Qed.
 
